@@ -24,20 +24,20 @@ def fr(p):
 PSI_SCALE_EXPS = (0, -6, 3)        # FluxMap.tla: PsiScaleExps
 
 
-def equilibrium(neg, A, B, off=0, pexp=0):
+def equilibrium(neg, A, B, off=0, pexp=0, Z0=0, C=0):
     import numpy as np
     from raysect.core import Point2D
     from cherab.tools.equilibrium import EFITEquilibrium
-    key = (neg, A, B, off, pexp)
+    key = (neg, A, B, off, pexp, Z0, C)
     if key not in _EQ:
         r = np.arange(1.0, 8.0)
         z = np.arange(-3.0, 4.0)
         sgn = -1.0 if neg else 1.0
         ps = 10.0 ** pexp
-        psi = sgn * (A * (r[:, None] - 4.0) ** 2 + B * z[None, :] ** 2) * ps
+        psi = sgn * (A * (r[:, None] - 4.0) ** 2 + B * (z[None, :] - Z0) ** 2 + C * (r[:, None] - 4.0) * (z[None, :] - Z0)) * ps
         lcfs = np.array([[1.5, 6.5, 6.5, 1.5], [-2.5, -2.5, 2.5, 2.5]])
         limiter = np.array([[1.5, 6.5, 6.5, 4.5, 4.5, 1.5], [-2.5, -2.5, 0.5, 0.5, 2.5, 2.5]])
-        _EQ[key] = EFITEquilibrium(r, z, psi, sgn * off / 2.0 * ps, sgn * (A * 4 + B) * ps, Point2D(4.0, 0.0), [], [], np.array([[0.0, 1.0], [F0, F0]]),
+        _EQ[key] = EFITEquilibrium(r, z, psi, sgn * off / 2.0 * ps, sgn * (A * 4 + B + 2 * C) * ps, Point2D(4.0, float(Z0)), [], [], np.array([[0.0, 1.0], [F0, F0]]),
                                    np.array([[0.0, 1.0], [1.0, 2.0]]), BVAC_R, BVAC, lcfs, limiter, 0.0)
     return _EQ[key]
 
@@ -48,10 +48,11 @@ def lin(p, x):
 
 def replay(rec, ctx):
     from raysect.core import Vector3D
-    eq = equilibrium(rec["neg"], rec["A"], rec["B"], rec.get("off", 0))
+    shape = dict(Z0=rec.get("Z0", 0), C=rec.get("C", 0))
+    eq = equilibrium(rec["neg"], rec["A"], rec["B"], rec.get("off", 0), **shape)
     r, z = float(rec["r"]), float(rec["z"])
     viol = []
-    tag = ("psi-negative" if rec["neg"] else "psi-positive") + ("[axis-offset]" if rec.get("off") else "")
+    tag = ("psi-negative" if rec["neg"] else "psi-positive") + ("[axis-offset]" if rec.get("off") else "") + ("[axis-above-midplane]" if shape["Z0"] else "") + ("[tilted]" if shape["C"] else "")
 
     def bad(what, detail):
         viol.append({"sig": f"{tag}:{what}", "detail": f"{detail} | A={rec['A']} B={rec['B']} node=({r},{z}) angle={rec['angle']}"})
@@ -65,7 +66,7 @@ def replay(rec, ctx):
     # the same flux function in other units
     if rec["angle"] == [1, 0, 1]:
         for pe in PSI_SCALE_EXPS[1:]:
-            eqs = equilibrium(rec["neg"], rec["A"], rec["B"], rec.get("off", 0), pe)
+            eqs = equilibrium(rec["neg"], rec["A"], rec["B"], rec.get("off", 0), pe, **shape)
             gs = eqs.psi_normalised(r, z)
             bs, b0 = eqs.b_field(r, z), eq.b_field(r, z)
             ps_, p0 = eqs.poloidal_vector(r, z), eq.poloidal_vector(r, z)
@@ -114,7 +115,9 @@ def replay(rec, ctx):
     c, s, h = rec["angle"]
     x, y = r * c / h, r * s / h
     got3 = eq.map3d(prof, value_outside_lcfs=-7.0)(x, y, z)
-    if not core.close(got3, want, rtol=1e-9, atol=1e-12):
+    # a node with psi_n = 1 exactly lies on the LCFS: at a rotated 3-D copy sqrt(x^2 + y^2) may round to either side of it
+    on_edge = rec["psin"][0] == rec["psin"][1] and rec["angle"] != [1, 0, 1]
+    if not core.close(got3, want, rtol=1e-9, atol=1e-12) and not (on_edge and got3 == -7.0):
         bad("map3d-differs", f"{got3!r} at toroidal angle (cos, sin) = ({c}/{h}, {s}/{h}) vs {want!r}")
     # field and basis
     pr, pz = rec["grad"]
@@ -167,7 +170,7 @@ def replay(rec, ctx):
             break
     co, si = c / h, s / h
     exp3 = (exp[0] * co - exp[1] * si, exp[0] * si + exp[1] * co, exp[2])
-    if not core.close([v3.x, v3.y, v3.z], list(exp3), rtol=1e-9, atol=1e-9):
+    if not core.close([v3.x, v3.y, v3.z], list(exp3), rtol=1e-9, atol=1e-9) and not (on_edge and (v3.x, v3.y, v3.z) == (0.0, 0.0, 0.0)):
         bad("map_vector3d-differs", f"{v3} vs {exp3}")
     return viol
 
@@ -248,6 +251,7 @@ INVARIANT NormalIsPolCrossTor
 INVARIANT FieldHasNoNormalComponent
 INVARIANT SameLength
 INVARIANT UpDownSymmetric
+INVARIANT PositiveDefinite
 INVARIANT EmitCase
 """
 
@@ -259,7 +263,7 @@ def run(v):
     cases = [r for r in res.records if "psin" in r]
     if len(cases) < 2000 or not any(r["inside"] for r in cases) or not any(not r["inside"] and r["psin"][0] <= r["psin"][1] for r in cases) or not any(r["degenerate"] for r in cases):
         raise core.MachineryError("vacuity: flux-map cases missing")
-    cases.sort(key=lambda r: (r["off"], r["neg"], r["A"], r["B"]))
+    cases.sort(key=lambda r: (r["off"], r["neg"], r["A"], r["B"], r["Z0"], r["C"]))
     out = core.fan_out("mbt.c12", "replay", cases, None, chunk=147)
     for r, vs in zip(cases, out):
         for x in vs:
@@ -269,7 +273,7 @@ def run(v):
     for vs in out:
         for x in vs:
             v.violation(x["sig"], x["detail"], None)
-    v.add_cases(len(cases) + 2 * n, keys=[json.dumps([r["off"], r["neg"], r["A"], r["B"], r["r"], r["z"], r["angle"]]) for r in cases])
+    v.add_cases(len(cases) + 2 * n, keys=[json.dumps([r["Z0"], r["C"], r["off"], r["neg"], r["A"], r["B"], r["r"], r["z"], r["angle"]]) for r in cases])
     v.sample(next(r for r in cases if r["inside"] and not r["degenerate"] and r["z"]))
     v.notes["random_points_per_bundled_equilibrium"] = n
     v.assumptions += ["synthetic quadratic psi on integer grids: cubic interpolation and second-order gradients are exact at the nodes where everything is compared",
